@@ -31,32 +31,6 @@ Qed.
 Definition ledger (d : bytes) (s : l2state) : Z :=
   gets (bk s) d - credited d (dlog s) + withdrawn d (wlog s).
 
-Lemma fd_tail_ledger c s m s' r d : fd_tail c s m = Some (s', r) → ledger d s' = ledger d s.
-Proof.
-  unfold fd_tail. destruct (fd_dep c s m) as [s1 dep_ok] eqn:Hdep.
-  destruct (fd_hook_run c (fd_gate s1 m) dep_ok (fd_hook m)) as [s4 hook_ok] eqn:Hhook.
-  apply fd_dep_spec in Hdep as (F1 & Hd0 & Hd1).
-  destruct F1 as (_ & _ & _ & _ & _ & _ & _ & F1w & F1d).
-  apply fd_hook_run_spec in Hhook as (F4 & H4s & H4f & _).
-  destruct F4 as (_ & _ & _ & _ & _ & _ & F4w & F4d).
-  destruct (reg_pair_frame (set_next_l1 s1 (next_l1 s1 + 1)%N) (fd_denom m) (fd_base m))
-    as (G1 & _ & _ & _ & _ & _ & _ & G8 & G9). fold (fd_gate s1 m) in G1, G8, G9. cbn in G1, G8, G9.
-  destruct (dep_ok && hook_ok) eqn:Hok.
-  - intros [= <- <-]. apply andb_true_iff in Hok as [-> ->].
-    destruct (Hd1 eq_refl) as (a & _ & _ & Hsup).
-    unfold ledger. cbn [bk push_deposit dlog wlog]. rewrite credited_cons. cbn [deposit_rec d_ok d_denom d_amt].
-    rewrite H4s, G1, Hsup, F4w, F4d, G8, G9, F1w, F1d. lia.
-  - intros H. apply bind_Some in H as (s5 & H5 & H). apply bind_Some in H as (base & _ & [= <- <-]).
-    apply fd_reclaim_spec in H5 as (F5 & H50 & H51).
-    destruct F5 as (_ & _ & _ & _ & _ & _ & _ & F5w & F5d).
-    unfold ledger. cbn [bk push_deposit push_withdrawal dlog wlog]. rewrite credited_cons, withdrawn_cons.
-    cbn [deposit_rec refund_rec d_ok w_refund]. rewrite F5w, F5d, F4w, F4d, G8, G9, F1w, F1d.
-    destruct dep_ok.
-    + destruct (H51 eq_refl) as (a & _ & _ & Hs5). destruct (Hd1 eq_refl) as (a' & _ & _ & Hs1).
-      rewrite Hs5, H4s, G1, Hs1. lia.
-    + rewrite (H50 eq_refl), H4s, G1, (Hd0 eq_refl). lia.
-Qed.
-
 Lemma withdraw_spec c s sender to d amt s' r :
   withdraw c s sender to d amt = Some (s', r) →
   ∃ a base, resolve c sender = Some a ∧ to ≠ [] ∧ valid_denom d = true ∧ 0 < amt < 18446744073709551616 ∧
@@ -77,6 +51,48 @@ Proof.
   - split; [|done]. intros d'. rewrite H2s, H1s. done.
 Qed.
 
+Lemma withdraw_ledger c s sender to d0 amt s' r d :
+  withdraw c s sender to d0 amt = Some (s', r) → ledger d s' = ledger d s.
+Proof.
+  intros H. apply withdraw_spec in H as (a & base & _ & _ & _ & _ & _ & _ & _ & _ & Hw & _ & Hs & _ & _ & _ & _ & _ & _ & Hd).
+  unfold ledger. rewrite Hw, Hd, withdrawn_cons, Hs. cbn. lia.
+Qed.
+
+Lemma fd_hook_run_ledger c s3 dep_ok h s4 ok d :
+  fd_hook_run c s3 dep_ok h = (s4, ok) → ledger d s4 = ledger d s3.
+Proof.
+  apply (fd_hook_run_R c (λ s s', ledger d s' = ledger d s)); [done|congruence|done| |].
+  - intros s b Hb. unfold ledger. cbn. by rewrite Hb.
+  - intros ? ? ? ? ? ? ?. apply withdraw_ledger.
+Qed.
+
+Lemma fd_tail_ledger c s m s' r d : fd_tail c s m = Some (s', r) → ledger d s' = ledger d s.
+Proof.
+  unfold fd_tail. destruct (fd_dep c s m) as [s1 dep_ok] eqn:Hdep.
+  destruct (fd_hook_run c (fd_gate s1 m) dep_ok (fd_hook m)) as [s4 hook_ok] eqn:Hhook.
+  apply fd_dep_spec in Hdep as (F1 & Hd0 & Hd1).
+  destruct F1 as (_ & _ & _ & _ & _ & _ & _ & F1w & F1d).
+  apply (fd_hook_run_ledger _ _ _ _ _ _ d) in Hhook.
+  destruct (reg_pair_frame (set_next_l1 s1 (next_l1 s1 + 1)%N) (fd_denom m) (fd_base m))
+    as (G1 & _ & _ & _ & _ & _ & _ & G8 & G9). fold (fd_gate s1 m) in G1, G8, G9. cbn in G1, G8, G9.
+  assert (L3 : ledger d (fd_gate s1 m) = gets (bk s1) d - credited d (dlog s) + withdrawn d (wlog s)).
+  { unfold ledger. by rewrite G1, G8, G9, F1w, F1d. }
+  destruct (dep_ok && hook_ok) eqn:Hok.
+  - intros [= <- <-]. apply andb_true_iff in Hok as [-> ->].
+    destruct (Hd1 eq_refl) as (a & _ & _ & Hsup).
+    unfold ledger in *. cbn [bk push_deposit dlog wlog]. rewrite credited_cons. cbn [deposit_rec d_ok d_denom d_amt].
+    rewrite Hsup in L3. lia.
+  - intros H. apply bind_Some in H as (s5 & H5 & H). apply bind_Some in H as (base & _ & [= <- <-]).
+    apply fd_reclaim_spec in H5 as (F5 & H50 & H51).
+    destruct F5 as (_ & _ & _ & _ & _ & _ & _ & F5w & F5d).
+    unfold ledger in *. cbn [bk push_deposit push_withdrawal dlog wlog]. rewrite credited_cons, withdrawn_cons.
+    cbn [deposit_rec refund_rec d_ok w_refund]. rewrite F5w, F5d.
+    destruct dep_ok.
+    + destruct (H51 eq_refl) as (a & _ & _ & Hs5). destruct (Hd1 eq_refl) as (a' & _ & _ & Hs1).
+      rewrite Hs5. rewrite Hs1 in L3. lia.
+    + rewrite (H50 eq_refl). rewrite (Hd0 eq_refl) in *. lia.
+Qed.
+
 Section history.
   Variable c : cfg.
 
@@ -89,8 +105,7 @@ Section history.
       [destruct F as (_&_&_&_&_&_&_&->&->); by rewrite Hs
       |destruct F as (->&_&_&_&_&->&->); done]).
     - apply finalize_deposit_tail in H as [[_ ->]|(_ & _ & _ & H)]; [done|]. eapply fd_tail_ledger; eauto.
-    - apply withdraw_spec in H as (a & base & _ & _ & _ & _ & _ & _ & _ & _ & Hw & _ & Hs & _ & _ & _ & _ & _ & _ & Hd).
-      unfold ledger. rewrite Hw, Hd, withdrawn_cons, Hs. cbn. lia.
+    - eapply withdraw_ledger; eauto.
     - by destruct (Hleaf sender inner).
   Qed.
 
@@ -122,7 +137,7 @@ Section history.
     apply fd_dep_spec in Hdep as (F1 & _ & _).
     destruct F1 as (F1a & _ & F1p & _).
     apply fd_hook_run_spec in Hhook as (F4 & _).
-    destruct F4 as (_ & _ & F4p & _).
+    destruct F4 as (_ & F4p & _).
     assert (Hg : pairs (fd_gate s1 m) = pairs (fd_gate s m)).
     { unfold fd_gate, reg_pair. cbn. rewrite F1p. destruct (pairs s !! fd_denom m); cbn; congruence. }
     destruct (dep_ok && hook_ok).
@@ -198,8 +213,8 @@ Section history.
       [destruct F as (_&Hn&_&_&_&_&_&Hw&_)|destruct F as (_&_&Hn&_&_&Hw&_)]; by apply emitted_refl).
     - apply finalize_deposit_Some in H as (_ & _ & [(_ & -> & _)|(_ & _ & _ & ok & _ & _ & _ & _ & Hc)]).
       { by apply emitted_refl. }
-      destruct Hc as [(_ & Hw & Hn)|(_ & Hn & base & Hw)]; [by apply emitted_refl|].
-      eapply emitted_one; eauto.
+      destruct Hc as [(_ & ws & Hw & Hn & _ & Hs)|(_ & Hn & base & Hw)]; [|eapply emitted_one; eauto].
+      exists (length ws). split; [done|]. by rewrite Hw, map_app, Hs.
     - apply withdraw_spec in H as (a & base & H). destruct H as (_&_&_&_&_&_&_&Hn&Hw&_).
       eapply emitted_one; eauto.
     - by destruct (Hleaf sender inner).
@@ -287,7 +302,7 @@ Definition ex_hist : list msg :=
     MWithdraw [5%N] [88%N] dA 25;
     MWithdraw [5%N] [88%N] dA 26;
     MWithdraw [5%N] [88%N] dB 1;
-    ex_dep 4 [4%N] dA [117; 97; 97]%N 9 (HTx 4 0 true [(5%N, dA, 1000)]) ].
+    ex_dep 4 [4%N] dA [117; 97; 97]%N 9 (HTx 4 0 true [HSend 5 dA 1000]) ].
 
 Example c09_example :
   let s := (run ex_cfg ex_init ex_hist).1 in
